@@ -200,13 +200,16 @@ pub enum Extraction {
 
 pub const EXTRACTIONS: [Extraction; 3] = [Extraction::Stream, Extraction::IntoWriter, Extraction::Cursors];
 
-fn extract<CC: ChunkCreator>(sorter: Sorter<Concat, CC>, how: Extraction) -> Result<Vec<Entry>, String> {
+fn extract<CC: ChunkCreator>(sorter: Sorter<Concat, CC>, how: Extraction, limit: usize) -> Result<Vec<Entry>, String> {
     let mut out: Vec<Entry> = Vec::new();
     match how {
         Extraction::Stream => {
             let mut it = sorter.into_stream_merger_iter().map_err(|e| format!("into_stream_merger_iter: {e}"))?;
             while let Some((k, v)) = it.next().map_err(|e| format!("next: {e}"))? {
                 out.push((k.to_vec(), v.to_vec()));
+                if out.len() > limit {
+                    return Err("the output stream yields more entries than were inserted: it does not terminate".into());
+                }
             }
         }
         Extraction::IntoWriter => {
@@ -222,6 +225,9 @@ fn extract<CC: ChunkCreator>(sorter: Sorter<Concat, CC>, how: Extraction) -> Res
             let mut it = b.build().into_stream_merger_iter().map_err(|e| e.to_string())?;
             while let Some((k, v)) = it.next().map_err(|e| format!("external merger next: {e}"))? {
                 out.push((k.to_vec(), v.to_vec()));
+                if out.len() > limit {
+                    return Err("the external merge yields more entries than were inserted: it does not terminate".into());
+                }
             }
         }
     }
@@ -232,7 +238,7 @@ fn feed<CC: ChunkCreator>(mut sorter: Sorter<Concat, CC>, inserts: &[Entry], how
     for (i, (k, v)) in inserts.iter().enumerate() {
         sorter.insert(k, v).map_err(|e| format!("insert #{i}: {e}"))?;
     }
-    extract(sorter, how)
+    extract(sorter, how, inserts.len() + 8)
 }
 
 /// Runs the real sorter on `inserts` and returns its output (panics are turned into Err).
